@@ -9,10 +9,10 @@
      Sync_rvv.cfg        as coded for the unverified remote header: RevertsJustified fails
      Sync_underflow.cfg  as coded for the uint64 underflow: EventuallyConverges fails (lasso)
      Sync_live4.cfg      repaired, chain <= 4, safety + liveness                           255 039 states
-     Sync_fine.cfg       repaired, Fine = TRUE (the model the traces are validated against) 306 941 states
-     Sync_lagw.cfg       repaired, Lag = W = 2 as in the code, chain 5, safety
+     Sync_fine.cfg       repaired, Fine = TRUE (the model the traces are validated against) 314 302 states
+     Sync_lagw.cfg       repaired, Lag = W = 2 as in the code, chain 5, safety             1 358 282 states
      Sync_faults2.cfg    repaired, chain <= 4, 1 source step, 2 faults, safety             655 895 states
-     Sync_thorough.cfg   repaired, chain <= 4, 2 source steps, 1 fault, safety           2 576 759 states
+     Sync_thorough.cfg   repaired, chain <= 4, 2 source steps, 1 fault, safety           4 156 713 states
      Sync_big.cfg        repaired, chain <= 4, 2 source steps, 2 faults, safety         10 502 715 states (optional) *)
 EXTENDS Sync
 =============================================================================
